@@ -323,7 +323,7 @@ fn main() {
     }
     if args.case.is_none() {
         let mut rng = Rng::new(args.seed);
-        let n = args.n.unwrap_or(if args.thorough() { 3000 } else { 450 });
+        let n = args.n.unwrap_or(if args.thorough() { 2500 } else { 300 });
         for i in 0..n {
             let mut r = rng.fork();
             let (c, mut tags) = gen_case(&mut r);
